@@ -200,6 +200,8 @@ def signature(err, text, flags, model, fam):
         return "c01.impl-debug-packed-reference"
     if codes == ["E0277"] and "__BindgenOpaqueArray" in err and re.search(r"derive-(partialeq|eq|ord|partialord|hash)|impl-partialeq", fl):
         return "c01.derive-through-opaque-array-padding"
+    if codes == ["E0432"] and "--disable-name-namespacing" in fl and "--enable-cxx-namespaces" in fl and "unresolved import `self::super::" in err:
+        return "c01.enum-typedef-use-path-with-both-namespacing-flags"
     if codes == ["E0277"] and "__BindgenComplex" in err and re.search(r"derive-(ord|partialord|eq)", fl) and "_Complex" in text:
         return "c01.derive-ord-through-bindgen-complex"
     if codes == ["E0080"] and model is not None and re.search(r'"Alignment of [^"]*"\]\[[^\n]*- 1usize', err) and has_packed_union(model):
